@@ -139,6 +139,7 @@ func c19GenCommon(g *Gen, sc *Scn) {
 	}
 	sc.SetInt("conc", b2i(conc))
 	sc.SetInt("licence", b2i(g.Bool(0.75)))
+	sc.SetInt("late", b2i(g.Bool(0.25)))
 	sc.SetInt("unsub", b2i(g.Bool(0.35)))
 }
 
@@ -445,7 +446,10 @@ func runC19Pipe(e *Env) {
 		}
 	}
 	licence := sc.Int("licence", 1) == 1
-	roprometheus.VerifSetLicenseBypass(licence)
+	// "late": the pipeline is built while the licence is inactive and the licence becomes active before
+	// the first Subscribe (the licence is to be checked at subscription time)
+	late := licence && sc.Int("late", 0) == 1
+	roprometheus.VerifSetLicenseBypass(licence && !late)
 	defer roprometheus.VerifSetLicenseBypass(false)
 
 	spec := sc.Sources[0]
@@ -533,6 +537,10 @@ func runC19Pipe(e *Env) {
 		return
 	}
 
+	if late {
+		roprometheus.VerifSetLicenseBypass(true)
+		e.Probe("licence-activated-after-construction")
+	}
 	pipes := []*c19Pipe{plain, probe, instr}
 	if !c19Drive(e, pipes) {
 		return
